@@ -873,13 +873,6 @@ theorem sortList_units {g : Graph} {ends : List Nat} {p : List Item} (h : ∀ it
 
 /-! ## Acyclicity, decidably -/
 
-/-- no unit is in its own (exactly computed) downstream set -/
-def acyclicB (g : Graph) (ends : List Nat) : Bool :=
-  (List.range g.outs.length).all fun u =>
-    match downstreamOf g ends [u] with
-    | .ok S => !S.contains u
-    | .error _ => false
-
 theorem Reach.first_edge {g : Graph} {ends : List Nat} {u w : Nat} (h : Reach g ends u w) : ∃ v, Edge g ends u v := by
   induction h with
   | single e => exact ⟨_, e⟩
@@ -1783,6 +1776,30 @@ theorem reach_ends_iff {g : Graph} {ends : List Nat} (hends : ∀ s, s ∈ ends 
     | single e => exact Relation.TransGen.single ((edge_ends_iff hends _ _).mpr e)
     | tail _ e ih => exact Relation.TransGen.tail ih ((edge_ends_iff hends _ _).mpr e)
 
+theorem reachesB_sound {g : Graph} {b a : Nat} (h : reachesB g b a = true) : Reach g [] b a := by
+  unfold reachesB at h
+  refine closeN_sound g [] (fun x => Reach g [] b x) (fun _ _ r e => Relation.TransGen.tail r e) g.n _ ?_ a
+    (List.contains_iff_mem.mp h)
+  intro x hx
+  rcases mem_addNew.mp hx with h | h
+  · exact absurd h List.not_mem_nil
+  · exact Relation.TransGen.single (mem_succs.mp h)
+
+theorem allRecyclesList_units {p : List Item} (h : ∀ it ∈ p, ∃ u, it = .unit u) : allRecyclesList p = [] := by
+  induction p with
+  | nil => rfl
+  | cons x xs ih =>
+    obtain ⟨u, rfl⟩ := h _ (List.mem_cons_self ..)
+    simp [allRecyclesList, allRecycles, ih (fun it hit => h it (List.mem_cons_of_mem _ hit))]
+
+theorem failingClauses_nil_iff (g : Graph) (p : Item) (R : List Nat) :
+    failingClauses g p R = [] ↔ checkNetwork g p R = .valid := by
+  unfold failingClauses checkNetwork
+  simp only
+  split
+  · simp
+  · split <;> split <;> split <;> (try split) <;> (try split) <;> (try split) <;> simp_all
+
 /-! ## misc -/
 
 /-- what `sortLevel` returns, in terms of the bubble loop over good path sources -/
@@ -1834,5 +1851,93 @@ theorem ok_of_match {α : Type} {e : Except Err α} {P : α → Bool}
   cases e with
   | ok a => exact ⟨a, rfl, h⟩
   | error _ => exact absurd h (by simp)
+
+/-! ## statements moved here from Props/C19 (helpers, general forms, vocabulary of `Holds`) -/
+
+/-- (one level)  `Network.sort` only reorders the path: the items after sorting are a
+permutation of the items before ("contains exactly the given units" is preserved by sorting). -/
+theorem sortLevel_perm {g : Graph} {ends : List Nat} {path : List Item} {r : List Nat} {o : SortOut} (h : sortLevel g ends path r = .ok o) :
+    o.path.Perm path := by
+  unfold sortLevel at h
+  split at h
+  · exact absurd h (by simp)
+  · rename_i ps hps
+    injection h with h; subst h
+    simp only
+    rw [← (mkPSs_spec hps).1]
+    exact (bubble_perm _ _ ps r).map _
+
+mutual
+/-- (whole nested network)  The units of the sorted network, flattened, are a
+permutation of the units of the network handed to `sort`, at every nesting depth. -/
+theorem sortItem_flat_perm_aux {g : Graph} {ends : List Nat} : ∀ (it : Item) {it' : Item} {w : Nat}, sortItem g ends it = .ok (it', w) → it'.flat.Perm it.flat
+  | .unit u, it', w, h => by
+    simp only [sortItem] at h
+    injection h with h; injection h with h1 h2; subst h1; exact List.Perm.refl _
+  | .net p r, it', w, h => by
+    unfold sortItem at h
+    split at h
+    · exact absurd h (by simp)
+    · rename_i p' w' hp
+      split at h
+      · exact absurd h (by simp)
+      · rename_i o ho
+        injection h with h; injection h with h1 h2; subst h1
+        have h1 := sortList_flat_perm p hp
+        have h2 := sortLevel_perm ho
+        simp only [Item.flat]
+        exact (flatList_perm h2).trans h1
+theorem sortList_flat_perm {g : Graph} {ends : List Nat} : ∀ (p : List Item) {p' : List Item} {w : Nat}, sortList g ends p = .ok (p', w) → (flatList p').Perm (flatList p)
+  | [], p', w, h => by
+    simp only [sortList] at h
+    injection h with h; injection h with h1 h2; subst h1; exact List.Perm.refl _
+  | i :: is, p', w, h => by
+    unfold sortList at h
+    split at h
+    · exact absurd h (by simp)
+    · rename_i i' w1 hi
+      split at h
+      · exact absurd h (by simp)
+      · rename_i is' w2 his
+        injection h with h; injection h with h1 h2; subst h1
+        simp only [flatList]
+        exact (sortItem_flat_perm_aux i hi).append (sortList_flat_perm is his)
+end
+
+/-- (general form of `dag_no_recycle`)  If no two path items are mutually reachable, `sort` adds
+no recycle. -/
+theorem dag_no_recycle_items {g : Graph} {ends : List Nat} {path : List Item} {r : List Nat} {o : SortOut}
+    (h : sortLevel g ends path r = .ok o)
+    (hno : ∀ a b, a ∈ path → b ∈ path → ¬ (ItemDown g ends a b ∧ ItemDown g ends b a)) :
+    o.recycle = r := by
+  obtain ⟨ps, e0, hgood, _, e2, _⟩ := sortLevel_inv h
+  rw [e2]
+  apply bubble_recycle
+  intro p q hp hq ⟨d1, d2⟩
+  refine hno p.item q.item ?_ ?_ ⟨(downFrom_iff (hgood p hp) (hgood q hq)).mp d1, (downFrom_iff (hgood q hq) (hgood p hp)).mp d2⟩
+  · rw [← e0]; exact List.mem_map_of_mem hp
+  · rw [← e0]; exact List.mem_map_of_mem hq
+
+/-- a stream runs from unit `a` to unit `b` -/
+def FlowEdge (g : Graph) (a b : Nat) : Prop := Edge g [] a b
+
+/-- the flowsheet has a cycle -/
+def Cyclic (g : Graph) : Prop := ∃ u, Reach g [] u u
+
+/-- `a` and `b` lie inside a common recycle loop: a (sub-)network that carries a recycle contains both -/
+def InCommonLoop (p : Item) (a b : Nat) : Prop :=
+  ∃ q r, SubNet p q r ∧ r ≠ [] ∧ a ∈ flatList q ∧ b ∈ flatList q
+
+/-- position in the flattened path (first occurrence) -/
+def pos (p : Item) (u : Nat) : Nat := p.flat.idxOf u
+
+theorem forward_acyclic {g : Graph} {p : Item} (h : ∀ a b, FlowEdge g a b → pos p a < pos p b) : ¬ Cyclic g := by
+  rintro ⟨u, hu⟩
+  have : ∀ a b, Reach g [] a b → pos p a < pos p b := by
+    intro a b r
+    induction r with
+    | single e => exact h _ _ e
+    | tail _ e ih => exact Nat.lt_trans ih (h _ _ e)
+  exact Nat.lt_irrefl _ (this u u hu)
 
 end ThermoVerif.NetSort
